@@ -5106,6 +5106,8 @@ def _parse_program(src: str) -> Program:
     # any other simple statement that spans several lines is rejected (it would
     # otherwise be skipped fragment by fragment without a diagnostic).
     simple_statement_lines: Set[int] = set()
+    blanked_lines: Set[int] = set()
+    blanked_owners: Set[int] = set()
     for stmt in ast.walk(tree):
         if not isinstance(stmt, ast.stmt) or hasattr(stmt, "body"):
             continue
@@ -5126,6 +5128,19 @@ def _parse_program(src: str) -> Program:
             )
         for lineno in range(stmt.lineno, min(end_lineno, len(lines)) + 1):
             lines[lineno - 1] = ""
+            blanked_lines.add(lineno)
+        blanked_owners.add(id(stmt))
+    for stmt in ast.walk(tree):
+        # ``"""doc\nstring""" ; led.on()``: a statement that starts on a line wiped
+        # above would vanish without a trace
+        if (
+            isinstance(stmt, ast.stmt)
+            and stmt.lineno in blanked_lines
+            and id(stmt) not in blanked_owners
+        ):
+            raise ValueError(
+                f"line {stmt.lineno}: several statements on one line are not supported"
+            )
     setup_body: List[object] = []
     loop_body: List[object]  = []
     ctx: Dict[str, Any] = {
